@@ -25,6 +25,7 @@ import (
 	"runtime"
 	"strconv"
 	"strings"
+	"testing/iotest"
 )
 
 type c11Ty struct {
@@ -683,6 +684,9 @@ func c11Len(r *vhRng) int {
 
 // c11GenTy draws a type; prepop says whether the position can carry type tables (Result, c11VDT).
 func c11GenTy(r *vhRng, depth int, prepop bool) *c11Ty {
+	if r.Chance(1, 14) { // a fixed byte array at any depth
+		return &c11Ty{kind: "arr", n: r.Pick(1, 4, 32, 64), sub: []*c11Ty{{kind: "u8"}}}
+	}
 	if depth <= 0 || r.Chance(2, 5) {
 		names := []string{"u8", "u16", "u32", "u64", "u128", "i8", "i16", "i32", "i64", "cu", "cu", "cu", "big", "big",
 			"bool", "bytes", "bytes", "str"}
@@ -703,6 +707,9 @@ func c11GenTy(r *vhRng, depth int, prepop bool) *c11Ty {
 		}
 		return c11ParseTy(c11EnumBDesc)
 	case 4:
+		if r.Chance(1, 2) { // fixed byte arrays: hashes, keys, signatures ([N]byte)
+			return &c11Ty{kind: "arr", n: r.Pick(1, 4, 32, 64), sub: []*c11Ty{{kind: "u8"}}}
+		}
 		return &c11Ty{kind: "arr", n: r.Intn(4), sub: []*c11Ty{c11GenTy(r, depth-1, false)}}
 	case 5, 6:
 		s := c11GenTy(r, depth-1, false)
@@ -1103,6 +1110,12 @@ func c11RefEncode(t *c11Ty, v reflect.Value) []byte {
 // the error paths of decodePointer / decodeResult asks for 512 bytes).
 // "mem=hi": runtime.MemStats.TotalAlloc grew by more than 8*largest read buffer + 1 MiB + 4096*len(input).
 func c11Decode(t *c11Ty, data []byte) string {
+	out, _ := c11DecodeReq(t, data)
+	return out
+}
+
+// c11DecodeReq also returns the largest read request.
+func c11DecodeReq(t *c11Ty, data []byte) (string, int) {
 	dst := reflect.New(t.goType())
 	dst.Elem().Set(t.zero())
 	rd := &c11Reader{buf: bytes.NewBuffer(append([]byte{}, data...))}
@@ -1119,11 +1132,64 @@ func c11Decode(t *c11Ty, data []byte) string {
 		suffix += " mem=hi"
 	}
 	if err != nil {
-		return "err" + suffix
+		return "err" + suffix, rd.maxReq
 	}
 	if rd.maxReq > len(data)+65536 {
-		return "ok-huge" + suffix
+		return "ok-huge" + suffix, rd.maxReq
 	}
 	re := c11RefEncode(t, dst.Elem())
-	return fmt.Sprintf("ok %s %d%s", vhHex(re), len(data)-rd.buf.Len(), suffix)
+	return fmt.Sprintf("ok %s %d%s", vhHex(re), len(data)-rd.buf.Len(), suffix), rd.maxReq
+}
+
+// c11ReaderKinds are the other ways the same bytes can reach the decoder: scale.Unmarshal itself
+// and scale.NewDecoder over readers that deliver the data differently (all legal io.Readers).
+var c11ReaderKinds = []string{"um", "rdr", "half", "one", "derr"}
+
+func c11DecodeVia(t *c11Ty, kind string, data []byte) (out string) {
+	defer func() {
+		if r := recover(); r != nil {
+			out = "panic"
+		}
+	}()
+	dst := reflect.New(t.goType())
+	dst.Elem().Set(t.zero())
+	cp := append([]byte{}, data...)
+	var err error
+	switch kind {
+	case "um":
+		err = Unmarshal(cp, dst.Interface())
+	case "rdr":
+		err = NewDecoder(bytes.NewReader(cp)).Decode(dst.Interface())
+	case "half":
+		err = NewDecoder(iotest.HalfReader(bytes.NewReader(cp))).Decode(dst.Interface())
+	case "one":
+		err = NewDecoder(iotest.OneByteReader(bytes.NewReader(cp))).Decode(dst.Interface())
+	case "derr":
+		err = NewDecoder(iotest.DataErrReader(bytes.NewReader(cp))).Decode(dst.Interface())
+	}
+	if err != nil {
+		return "err"
+	}
+	return "ok:" + vhHex(c11RefEncode(t, dst.Elem()))
+}
+
+// c11DecodeAll is c11Decode followed, for every reader kind whose outcome (err / value) differs
+// from the bytes.Buffer outcome, by " <kind>=<outcome>".  Skipped when the decoder allocated a
+// read buffer of more than len(input)+65536 bytes (such values are not materialised).
+func c11DecodeAll(t *c11Ty, data []byte) string {
+	out, req := c11DecodeReq(t, data)
+	if req > len(data)+65536 {
+		return out
+	}
+	f := strings.Fields(out)
+	base := "err"
+	if f[0] == "ok" {
+		base = "ok:" + f[1]
+	}
+	for _, k := range c11ReaderKinds {
+		if o := c11DecodeVia(t, k, data); o != base {
+			out += " " + k + "=" + o
+		}
+	}
+	return out
 }
